@@ -234,4 +234,5 @@ class Verdict:
         if self.harness_errors: return 2
         if cov.get('evaluations', 0) < 1 or cov.get('distinct_nontrivial', 0) < 2:
             print('INCONCLUSIVE: the run observed nothing relevant for %s' % self.prop); return 2
+        print('HELD property=%s tier=%s seed=%s evaluations=%s distinct_nontrivial=%s wall=%ds' % (self.prop, self.tier, self.seed, cov.get('evaluations'), cov.get('distinct_nontrivial'), wall))
         return 0
